@@ -4,6 +4,7 @@ import (
 	"bytes"
 	"encoding/binary"
 	"fmt"
+	"io"
 	"math"
 	"os"
 	"os/signal"
@@ -19,6 +20,7 @@ import (
 	"github.com/deadsy/sdfx/render"
 	"github.com/deadsy/sdfx/render/dc"
 	"github.com/deadsy/sdfx/sdf"
+	v2 "github.com/deadsy/sdfx/vec/v2"
 	"verif/sim/simcore"
 )
 
@@ -133,6 +135,13 @@ func victimFunc(v string) (func(simcore.Label) bool, error) {
 // before the simulation starts (warm-up histories); hooks are no-ops then.
 var hooksOff atomic.Bool
 
+// slow consumer (Scenario.ConsStallMs)
+var (
+	consStall      time.Duration
+	consStallEvery uint64 = 1
+	consStallCount atomic.Uint64
+)
+
 func hookYield(site string, key uint64) {
 	if hooksOff.Load() {
 		return
@@ -140,6 +149,11 @@ func hookYield(site string, key uint64) {
 	s, ok := hookSites[site]
 	if !ok {
 		return
+	}
+	if consStall > 0 && isConsumerSite(s) && s != SGoStart {
+		if n := consStallCount.Add(1); n%consStallEvery == 0 {
+			time.Sleep(consStall)
+		}
 	}
 	simcore.YieldCtx(s, key)
 }
@@ -161,6 +175,11 @@ func runEpisode(sc *Scenario) *Result {
 
 	if sc.Env.GOMAXPROCS > 0 {
 		runtime.GOMAXPROCS(sc.Env.GOMAXPROCS)
+	}
+	consStall, consStallEvery = time.Duration(sc.ConsStallMs)*time.Millisecond, uint64(max(sc.ConsStallEvery, 1))
+	consStallCount.Store(0)
+	if consStall > 0 {
+		ep.probes["slow-consumer-in-real-time"]++
 	}
 	bezierProfile() // fixed construction order: first thing in the process
 	signal.Ignore(syscall.SIGXFSZ)
@@ -463,6 +482,13 @@ func (ep *episode) faultPath(j *Job, ext string) (string, error) {
 		return base, nil
 	case "devfull":
 		return "/dev/full", nil
+	case "fifo":
+		// the output path is a named pipe with a reader at the other end: every
+		// write succeeds, nothing can be sought or truncated
+		if err := syscall.Mkfifo(base, 0o644); err != nil {
+			return "", err
+		}
+		return base, nil
 	}
 	return "", fmt.Errorf("unknown fault kind %q", j.Fault.Kind)
 }
@@ -507,6 +533,20 @@ func (ep *episode) withFault(j *Job, jr *jobRun, path string, call func()) func(
 				syscall.Setrlimit(syscall.RLIMIT_NOFILE, &lim)
 			}()
 		}
+		if j.Fault.Kind == "fifo" {
+			rd, err1 := os.OpenFile(path, os.O_RDONLY|syscall.O_NONBLOCK, 0)
+			keep, err2 := os.OpenFile(path, os.O_WRONLY|syscall.O_NONBLOCK, 0)
+			if err1 != nil || err2 != nil {
+				panic(fmt.Sprint("fifo: ", err1, err2))
+			}
+			done := make(chan int64, 1)
+			go envDrain(rd, done, time.Duration(j.Fault.Budget)*time.Millisecond)
+			defer func() {
+				keep.Close()
+				rd.Close()
+				jr.res.FaultNote = fmt.Sprintf("%d bytes went down the pipe", <-done)
+			}()
+		}
 		call()
 		if j.Fault.Kind == "fsize" {
 			restoreFsize()
@@ -520,6 +560,14 @@ func (ep *episode) withFault(j *Job, jr *jobRun, path string, call func()) func(
 			jr.faultsFired = append(jr.faultsFired, j.Fault.Kind)
 		}
 	}
+}
+
+// envDrain is the reader at the other end of a named pipe.
+// A reader that is busy for a while first stalls every write once the pipe is full.
+func envDrain(rd *os.File, done chan<- int64, busy time.Duration) {
+	time.Sleep(busy)
+	n, _ := io.Copy(io.Discard, rd)
+	done <- n
 }
 
 // ---------------------------------------------------------------------------
@@ -827,6 +875,9 @@ func (ep *episode) compareBatchSTL(jr *jobRun) {
 		jr.res.AtReturn = &c
 		return
 	}
+	// a loaded mesh belongs to the caller: it is compared only after other files
+	// (binary and ASCII, other content) have been loaded as well
+	var held [][]*sdf.Triangle3
 	for _, p := range []string{jr.state.path, p2} {
 		mesh, err := render.LoadSTL(p)
 		if err != nil {
@@ -834,10 +885,49 @@ func (ep *episode) compareBatchSTL(jr *jobRun) {
 			jr.res.AtReturn = &c
 			return
 		}
+		held = append(held, mesh)
+		ep.loadSomethingElse(jr)
+	}
+	for _, mesh := range held {
 		if c := compareLoaded(jr.state.tris, mesh); !c.OK {
+			c.Msg += " (compared after later LoadSTL calls)"
 			jr.res.AtReturn = &c
 			return
 		}
+	}
+}
+
+// loadSomethingElse loads a small binary and a small ASCII STL with other
+// content (what a program that imports several parts does between two uses
+// of the first mesh).
+func (ep *episode) loadSomethingElse(jr *jobRun) {
+	other := []*sdf.Triangle3{
+		{{X: -2000, Y: 1, Z: 2}, {X: 3, Y: -2000, Z: 5}, {X: 6, Y: 7, Z: -2000}},
+		{{X: 9, Y: 9, Z: 9}, {X: -9, Y: 9, Z: 9}, {X: 9, Y: -9, Z: 9}},
+		{{X: 0.5, Y: 0.25, Z: 0.125}, {X: 4096, Y: 0, Z: 0}, {X: 0, Y: 4096, Z: 0}},
+	}
+	n := len(jr.state.tris)
+	for len(other) < min(n+1, 400) {
+		k := float64(len(other))
+		other = append(other, &sdf.Triangle3{{X: -k, Y: k, Z: 1}, {X: k, Y: -k, Z: 2}, {X: 3, Y: k, Z: -k}})
+	}
+	pb := jr.state.path + ".other.stl"
+	if err := render.SaveSTL(pb, other); err == nil {
+		render.LoadSTL(pb)
+	}
+	var b bytes.Buffer
+	b.WriteString("solid other\n")
+	for _, t := range other {
+		b.WriteString(" facet normal 0 0 1\n  outer loop\n")
+		for k := 0; k < 3; k++ {
+			fmt.Fprintf(&b, "   vertex %g %g %g\n", t[k].X, t[k].Y, t[k].Z)
+		}
+		b.WriteString("  endloop\n endfacet\n")
+	}
+	b.WriteString("endsolid other\n")
+	pa := jr.state.path + ".other.ascii.stl"
+	if os.WriteFile(pa, b.Bytes(), 0o644) == nil {
+		render.LoadSTL(pa)
 	}
 }
 
@@ -917,6 +1007,7 @@ func (ep *episode) asciiRoundTrip(jr *jobRun) Check {
 	if len(mesh) != len(jr.state.tris) {
 		return bad("stl-ascii-load", "ASCII STL lists %d facets, LoadSTL returned %d", len(jr.state.tris), len(mesh))
 	}
+	ep.loadSomethingElse(jr) // the mesh is compared after other files have been loaded
 	listed := func(v float64) float64 { // the value the file lists: its text read by strconv, not by the library
 		x, _ := strconv.ParseFloat(g(v), 64)
 		return x
@@ -1038,18 +1129,42 @@ func (ep *episode) objectAPI2(jr *jobRun) {
 	for i < len(lines) {
 		k := pick(r, []int{1, 1, 2, 3, 5, 37, 300, len(lines)})
 		k = min(k, len(lines)-i)
+		// the caller's storage is its own again once Line / Lines has returned: the
+		// segments are handed over as copies that are overwritten afterwards
 		if dx != nil && r.Intn(2) == 0 {
-			dx.Lines(lines[i : i+k])
+			cp := make([]*sdf.Line2, k)
+			for n, l := range lines[i : i+k] {
+				c := *l
+				cp[n] = &c
+			}
+			dx.Lines(cp)
+			for n := range cp {
+				*cp[n] = sdf.Line2{{X: -777, Y: 777}, {X: 777, Y: -777}}
+				cp[n] = nil
+			}
 		} else {
+			var scratch sdf.Line2
 			for _, l := range lines[i : i+k] {
 				if dx != nil {
-					dx.Line(l)
+					scratch = *l
+					dx.Line(&scratch)
+					scratch = sdf.Line2{{X: -777, Y: 777}, {X: 777, Y: -777}}
 				} else {
 					sv.Line(l[0], l[1])
 				}
 			}
 		}
 		i += k
+		// point markers in between (a separate layer; an empty set too)
+		if dx != nil && r.Intn(5) == 0 {
+			var ps v2.VecSet
+			for n := r.Intn(3); n > 0; n-- {
+				ps = append(ps, v2.Vec{X: float64(r.Intn(100)), Y: float64(r.Intn(100))})
+			}
+			dx.Points(ps, 0.5)
+			st.circles += len(ps)
+			ep.jobNote(0, "drawing-object-points-between-lines")
+		}
 		if i < len(lines) && saves < 3 && r.Intn(4) == 0 {
 			if !save(i, "more segments follow") {
 				return
